@@ -410,7 +410,12 @@ def monitor(case, impl):
     # rows
     rows = impl["rows"]
     demanded = [{k: v for k, v in r.items() if not (k == "probability" and v is None)} for r in exp_rows]
-    plain = batched and all(set(r) <= {"action", "probability", "rewards"} for r in demanded)   # cells that are plain lists in a batch
+    # a batch row is only un-batched when one of its cells is a Batch.List: the recorded reward, a context/actions
+    # cell the environment really has, a reward object, or an extra field.  Otherwise (finding C06-F7) it is not.
+    discrete = "actions" in first and bool(mk(first["actions"]))
+    typed = (bool(ev) and "reward" in rec) or ("context" in rec and "context" in first) or ("actions" in rec and "actions" in first) \
+        or any(k not in RESERVED for k in first) or ("rewards" in rec and "rewards" in first and not discrete)
+    plain = batched and not typed
     rsig = ":batched-plain-list-cells" if plain else (":batched" if batched else "")
     row_fails = []
 
@@ -744,7 +749,7 @@ def gen_case(rng, tier="quick", boundary=False):
 
     astyle = rng.choice(["int", "int", "float", "str", "dense", "denselist", "sparse", "cont"])
     cstyle = rng.choice(["none", "scalar", "str", "dense", "dense", "sparse", "sparse"])
-    n = rng.choice([0, 1, 1, 2, 3, 3, 4, 5, 6, 7]) if not boundary else rng.choice([1, 2, 3, 4])
+    n = (0 if rng.chance(0.03) else rng.choice([1, 1, 2, 3, 3, 4, 5, 6, 7])) if not boundary else rng.choice([1, 2, 3, 4])
     has_ctx_key = not (cstyle == "none" and rng.chance(0.5))
     # which fields the environment carries
     wants_sim = learn == "on" or ev == "on"
@@ -814,8 +819,9 @@ def gen_case(rng, tier="quick", boundary=False):
     fmt = rng.choice(fmts_for(astyle if has_actions else "int"))
     kw_keys = rng.sample(["i", "tag", "z"], rng.randint(1, 2)) if fmt.endswith("K") else []
     script = []
+    noprob = rng.chance(0.08)      # a learner either always or never reports a probability (consistent format)
     for _ in range(rng.randint(1, 4)):
-        script.append({"idx": rng.randint(0, 5), "free": gen_num(rng), "p": None if rng.chance(0.08) else rng.choice(PROBS[:7]),
+        script.append({"idx": rng.randint(0, 5), "free": gen_num(rng), "p": None if noprob else rng.choice(PROBS[:7]),
                        "kw": {k: gen_any(rng, 1) for k in kw_keys}, "s": rng.choice([[1, 2], [1, 4], [1, 1], [0, 1], [3, 4]])})
     L = {"fmt": fmt, "has_score": has_score, "batch_mode": rng.choice(["aware", "unaware"]), "kw_keys": kw_keys, "script": script}
     return {"cfg": cfg, "env": env, "learner": L}
@@ -880,9 +886,9 @@ def corpus_cases():
 class C06(Property):
     id = "C06"
     prop_modules = ["CobaVerif.Props.C06"]
-    quick_n = 1500
-    thorough_n = 40000
-    search_n = 2500
+    quick_n = 6000
+    thorough_n = 100000
+    search_n = 4000
     case_timeout = 60
     workers = 8
     rule = ("random finite environments (0-7 interactions; context none/scalar/str/dense/sparse or key absent; action sets of ints incl. 0/1, "
